@@ -983,3 +983,127 @@ def classify_final_scan_rounding(ins, r, model_status):
         bad = abs(sl) if (c[3] and r['A'][j] == '1') else -sl
         worst = max(worst, bad)
     return worst <= lim
+
+
+# ------------------------------------------------------------------------------------------ mean-preserving re-solve (DESIGN 9.19)
+MP_W = [Fr(1), Fr(1), Fr(2), Fr(4), Fr(1, 2), Fr(1, 4)]
+MP_S = [Fr(1), Fr(2), Fr(1, 2), Fr(4)]
+MP_DELTA = [Fr(x, 2) for x in range(-16, 17) if x]
+
+
+def run_real(insts, impl='vpsc', tag='mp', timeout=120):
+    """the real solver only (no driver): id -> [results]; used by generators that look at the partition a solve returned"""
+    ex = tools()
+    os.makedirs(TMP, exist_ok=True)
+    p = os.path.join(TMP, 'c01-%s-%s-%d.real.txt' % (tag, impl, os.getpid()))
+    with open(p, 'w') as f:
+        for ins in insts:
+            f.write(inst_cpp_text(ins))
+    rc, out, err, dt = C.sh([ex[impl], p], timeout=timeout)
+    try:
+        os.remove(p)
+    except OSError:
+        pass
+    return parse_cpp(out)
+
+
+def gen_mp_base(rng, iid, nmax):
+    """first solve of a mean-preserving re-solve history: DAG (a chain in a random order + forward edges), dyadic weights and
+    scales (so that sum w*a*d over a block is computed exactly in binary64), desired positions that press the variables
+    together into one or several multi-variable blocks"""
+    n = rng.range(2, nmax)
+    shape = rng.choice(['one', 'one', 'pressed', 'clusters', 'clusters'])
+    wmode, smode = rng.below(3), rng.below(3)       # 0: all 1, 1/2: dyadic values != 1 mixed in
+    order = rng.shuffle(list(range(n)))
+    pos = {v: i for i, v in enumerate(order)}
+    cut = set()
+    if shape == 'clusters' and n >= 4:
+        cut = {rng.range(2, n - 2)} | ({rng.range(2, n - 2)} if n >= 6 and rng.chance(1, 2) else set())
+    base = Fr(rng.range(-4, 8))
+    vs = [None] * n
+    grp = 0
+    for i, v in enumerate(order):
+        if i in cut:
+            grp += 1
+        if shape == 'pressed':
+            d = base + Fr(n - i) * rng.choice([Fr(1), Fr(1, 2), Fr(2)])
+        else:
+            d = base + Fr(40 * grp) + (Fr(rng.range(-1, 1)) if rng.chance(1, 4) else Fr(0))
+        w = Fr(1) if wmode == 0 else rng.choice(MP_W)
+        s = Fr(1) if smode == 0 else rng.choice(MP_S)
+        vs[v] = (d / s if rng.chance(1, 2) else d, w, s)
+    cs = [(a, b, rng.choice([Fr(1), Fr(1), Fr(2), Fr(3), Fr(1, 2), Fr(0)]), False) for a, b in zip(order, order[1:])]
+    for _ in range(rng.below(n)):
+        a, b = rng.below(n), rng.below(n)
+        if a != b:
+            if pos[a] > pos[b]:
+                a, b = b, a
+            cs.append((a, b, Fr(rng.range(0, 3)), False))
+    cs = rng.shuffle(cs)
+    return {'id': iid, 'kind': 'I', 'vs': vs, 'cs': cs, 'ops': [('S',) if rng.chance(3, 4) else ('F',)],
+            'tag': 'mp-' + shape + ('+wt' if wmode else '') + ('+scaled' if smode else '')}
+
+
+def mp_perturb(rng, ins, res, which='some'):
+    """D ops that change the desired positions of the variables of multi-variable blocks of the partition `res` (a real
+    result) by a perturbation with sum_i (w_i / s_i) * delta_i = 0 EXACTLY (dyadic deltas): PositionStats::AD of the block
+    and hence Block::posn keep their value bit for bit, while the individual multipliers change.  Returns (ops, #blocks)"""
+    vs, _ = cons_at(ins, len(ins['ops']) - 1)
+    blocks = {}
+    for i, b in enumerate(res['B']):
+        blocks.setdefault(b, []).append(i)
+    multi = [m for m in blocks.values() if len(m) >= 2]
+    if not multi:
+        return [], 0
+    if which == 'some' and not rng.chance(1, 2):
+        multi = [rng.choice(multi)] if rng.chance(1, 2) else [m for m in multi if rng.chance(1, 2)] or [multi[0]]
+    ops = []
+    for mem in multi:
+        mem = rng.shuffle(list(mem))
+        last = mem[-1]
+        tot = Fr(0)
+        small = rng.chance(1, 3)
+        for i in mem[:-1]:
+            if len(mem) > 2 and rng.chance(1, 4):
+                continue
+            dl = rng.choice(MP_DELTA) / (8 if small else 1)
+            tot += Fr(vs[i][1]) / Fr(vs[i][2]) * dl
+            ops.append(('D', i, Fr(vs[i][0]) + dl))
+        if tot != 0:
+            ops.append(('D', last, Fr(vs[last][0]) - tot * Fr(vs[last][2]) / Fr(vs[last][1])))
+    return rng.shuffle(ops), len(multi)
+
+
+def gen_mp_histories(rng, n, nmax, impl, first_id, rounds=(1, 2, 2, 3)):
+    """the directed family `mean-preserving re-solve`: solve; look at the block partition the REAL solver returned; move
+    the desired positions of (some / all) multi-variable blocks by weighted-zero-sum dyadic perturbations; solve or
+    satisfy again on the same solver; up to 3 rounds (each from the partition of the previous return; one variant goes
+    back to the previous desired positions).  The histories are then judged like every other history."""
+    insts = [gen_mp_base(rng, first_id + k, nmax) for k in range(n)]
+    nr = {ins['id']: rng.choice(list(rounds)) for ins in insts}
+    stats = {'instances': n, 'rounds': 0, 'blocks_perturbed': 0}
+    for rd in range(max(rounds)):
+        live = [ins for ins in insts if nr[ins['id']] > rd]
+        real = run_real(live, impl, tag='mp%d' % rd)
+        for ins in live:
+            rs = real.get(ins['id'], [])
+            if not rs or rs[-1]['status'] != 'ok' or rs[-1]['op'] != len(ins['ops']) - 1:
+                nr[ins['id']] = 0
+                continue
+            if rd >= 1 and rng.chance(1, 5):
+                # back to the desired positions in force at the previous solve (the mean of a block that survived is again unchanged)
+                k0 = max(k for k, o in enumerate(ins['ops'][:-1]) if o[0] in 'SF')
+                old, _ = cons_at(ins, k0)
+                cur, _ = cons_at(ins, len(ins['ops']) - 1)
+                ops, nb = [('D', i, Fr(old[i][0])) for i in range(len(cur)) if Fr(old[i][0]) != Fr(cur[i][0])], 1
+            else:
+                ops, nb = mp_perturb(rng, ins, rs[-1], 'all' if rng.chance(1, 3) else 'some')
+            if not ops:
+                nr[ins['id']] = 0
+                continue
+            ins['ops'] = list(ins['ops']) + ops + [('S',) if rng.chance(3, 4) else ('F',)]
+            stats['rounds'] += 1
+            stats['blocks_perturbed'] += nb
+    for ins in insts:
+        ins['tag'] += '+r%d' % (sum(1 for o in ins['ops'] if o[0] in 'SF') - 1)
+    return insts, stats
